@@ -8,6 +8,8 @@
 //   {"i": n, "op": name, "ret": ... | "exc": {...}, "sh": {...shim counters...}}
 //   {"end": id}
 // If the process dies, the op in progress is the one after the last event.
+#include <cstdlib>
+#include <ctime>
 #include <cxxabi.h>
 #include <signal.h>
 #include <unistd.h>
@@ -158,6 +160,9 @@ int main(int argc, char** argv)
         json c = json::parse(line);
         emit({{"case", c["id"]}});
         st.reset();
+        // every case starts in UTC; an op may carry "tz" (a POSIX TZ string) to move the process into another zone
+        setenv("TZ", "UTC0", 1);
+        tzset();
         shim_disarm();
         shim_set_step_budget(50000000);
         shim_set_inflate_budget(100000);
@@ -170,6 +175,11 @@ int main(int argc, char** argv)
             ev["i"] = i++;
             std::string name = op["op"].get<std::string>();
             ev["op"] = name;
+            if (op.contains("tz"))
+            {
+                setenv("TZ", op["tz"].get<std::string>().c_str(), 1);
+                tzset();
+            }
             shim_begin_op();
             if (op.contains("fault"))
             {
